@@ -30,13 +30,14 @@ RULE = (
 ASSUMPTIONS = ["bracket classes containing '[' are not used (Python's FutureWarning would add a stderr line that is not the tool's)", "inputs for which the library itself raises a non-library exception are skipped (that is C06's concern)"]
 SHARD_TIMEOUT = {"quick": 900, "thorough": 3600}
 
-DOC = {"a": [1, 2, {"b": "x", "é": "ü"}], "b": {"c": None, "d": 1.5, "e": True}, "s": "stré", "é": 1, "a/b": 2, "~": 3, "list": ["x", "y"]}
+DOC = {"a\u00a0": "nbsp", "\u2028x": "ls", "a": [1, 2, {"b": "x", "é": "ü"}], "b": {"c": None, "d": 1.5, "e": True}, "s": "stré", "é": 1, "a/b": 2, "~": 3, "list": ["x", "y"]}
 DOC_TEXT = json.dumps(DOC)
 BAD_DOC_TEXT = '{"a": [1, 2,}'
 
 PATH_EXPRS = [
     ("valid", "$.a[*]"), ("valid", "$..b"), ("valid", "$.a[?@.b == 'x']"), ("valid", "$['\\u00e9']"), ("valid", "$.nothing"), ("valid", "$[?@[0] == 1 || @.c == null]"), ("valid", ""),
-    ("valid", "$.b[?@ > 1]"), ("valid", "$.a[0:2]"), ("valid", "$.*.e | $.list[0]"),
+    ("valid", "$.b[?@ > 1]"), ("valid", "$.a\u00a0"), ("valid", "$..a\u00a0"), ("valid", "$.\u2028x"), ("valid", "$['a\u00a0']"), ("valid", " $.a "), ("valid", "$.a\n"), ("syntax", "\u00a0$.a"), ("syntax", "$.a\x1c"), ("syntax", "$.a\x0c"),
+    ("valid", "$.a\u3000"), ("valid", "$.a\u0085"), ("valid", "$.a[0:2]"), ("valid", "$.*.e | $.list[0]"),
     ("syntax", "$.a["), ("syntax", "$[?@.a ==]"), ("syntax", "$..[1,]"), ("syntax", "$['a"),
     ("type", "$[?count(1) > 0]"), ("type", "$[?length(@.*) > 1]"), ("type", "$[?match(@.a)]"), ("type", "$[?@.* == 1]"),
     ("name", "$[?nosuchfunction(@.a)]"), ("name", "$.a[?foo(@) == 1]"),
@@ -171,6 +172,7 @@ def check(ctx, files, cmd, label, expr, doc_ok, opts, use_subprocess, repo, doc_
         expr_text = expr
         if opts["expr_file"]:
             argv += ["-r", files.write(expr + "\n")]
+            expr_text = expr.strip()   # a query file's text is taken without the surrounding white space (its final newline, ...)
         else:
             argv += ["-q" if cmd == "path" else "-p", expr]
     stdin_text = None
